@@ -53,6 +53,25 @@ CLAIMS = {
         "technique": "contract-based deductive verification (2-D array algebra, reduction nodes compared pointwise, inductive lemmas + SMT)",
         "design_ref": "DESIGN.md section 4 C08, section 3.4",
     },
+    "C09": {
+        "text": ("Proof on the real transformation functions for scales with any number of brackets: multiply_rates and "
+                 "multiply_thresholds (in place and to a new scale; loop invariants) give the operand's lists with every rate / "
+                 "threshold multiplied, so every summand of calc (C08's contract) is scaled - taxes follow by linearity of finite "
+                 "sums (lemma, induction); copy and scale_tax_scales give a new scale with its own lists and leave the operand "
+                 "unchanged; combine_bracket (add_bracket taken under its positional contract, while-loop invariant, proof steps "
+                 "following a point through the insertions) adds the rate to the marginal rate of exactly the points of [low, high); "
+                 "add_tax_scale (loop invariant over a ghost marginal-rate function) makes the marginal rate everywhere the sum of "
+                 "the two; inverse (loop invariant with a ghost partial-sum function) gives net thresholds T(k) - tax(T(k)) and rates "
+                 "1/(1 - r(k)), gross bracket k maps onto net bracket k and the summands of calc of the inverse at the net amount "
+                 "are the gross bracket widths (telescoping lemma). Frame: non-in-place operations leave the operand's lists alone."),
+        "note": ("to_average / to_marginal are NOT under contract (float('Inf') thresholds): a bounded stand-in runs the real round "
+                 "trip on a stated grid of scales and bases and is labelled bounded in the evidence. Combination is proved for the "
+                 "marginal-rate function; tax = integral of the marginal rate is mathematics taken as known. helpers."
+                 "combine_tax_scales and rounding options are not decided. Two genuine defects were repaired by fix: commits "
+                 "(combine_bracket below the first threshold; to_average with a non-zero first threshold / one bracket)."),
+        "technique": "contract-based deductive verification (loop invariants, ghost rate / partial-sum functions, modular add_bracket contract, inductive lemmas + SMT; one bounded stand-in)",
+        "design_ref": "DESIGN.md section 4 C09, section 3.4",
+    },
     "C10": {
         "text": ("Proof over the numpy array algebra for any number of persons and groups and any membership map: sum and nb_persons "
                  "(with and without role) have one element per group of the simulation and add / count exactly the members of each "
